@@ -5,7 +5,9 @@
     * a strict prefix of a MessagePack document must be rejected with an exception (prefix-free format);
     * a stream failure must surface as an exception;
     * a library-detected mid-save error must surface as an exception.
-  Two recorded findings: exceptions escaping ~CCsvWriteObjectScope / ~CMsgPackReadObjectScope.
+  No exception class is accepted for `terminate` any more: the destructors of ~CCsvWriteObjectScope,
+  ~CMsgPackReadObjectScope and ~CMsgPackReadArrayScope defer their errors to Finalize() (formerly the
+  recorded classes csv-write-dtor-throws / msgpack-object-dtor-throws).
 -/
 import BSVerif.Basic
 
@@ -14,7 +16,21 @@ namespace BSVerif.Driver.Fault
 def isExc (a : String) : Bool := a.startsWith "exc:"
 def isOkOrExc (a : String) : Bool := a.startsWith "ok" || isExc a
 
+/-- `fault.defer c₁ … cₙ`: `DeferError` keeps the FIRST error, `RethrowDeferredError` throws it once (the slot is
+    cleared), a second call has nothing to throw -/
+def deferExpected (classes : List String) : String :=
+  match classes.filter (· != "-") with
+  | [] => "ok ok"
+  | c :: _ => s!"exc:{c} ok"
+
 def handle (toks : List String) (impl : Option String) : Option (String × String) :=
+  match toks with
+  | "fault.defer" :: classes =>
+    let exp := deferExpected classes
+    some (exp, match impl with
+      | none => "nospec"
+      | some a => if a == exp then "ok" else "bad:deferred_error_is_not_the_first_one_or_not_rethrown_once")
+  | _ =>
   let a := impl.getD "-"
   let verdict : String :=
     match impl with
@@ -23,14 +39,12 @@ def handle (toks : List String) (impl : Option String) : Option (String × Strin
       match toks with
       | ["fault.trunc", arch, _src, _doc, _k] =>
         if a == "skip" then "ok"
-        else if a == "terminate" then
-          (if arch == "mp" || arch == "mpvec" then "known:msgpack-object-dtor-throws" else "bad:terminate")
-        else if arch == "mp" || arch == "mpvec" then
+        else if a == "terminate" then "bad:terminate"
+        else if arch == "mp" || arch == "mpvec" || arch == "mpx" || arch == "mptup" then
           (if isExc a then "ok" else "bad:truncated_MessagePack_document_accepted")
         else if isOkOrExc a then "ok" else "bad:abnormal_outcome"
-      | ["fault.alloc", sc, _k] =>
+      | ["fault.alloc", _sc, _k] =>
         if isOkOrExc a then "ok"
-        else if a == "terminate" ∧ sc.startsWith "csv_save" then "known:csv-write-dtor-throws"   -- NextLine() allocates inside the destructor
         else "bad:abnormal_outcome_under_allocation_failure"
       | ["fault.io", _sc, _off] =>
         if a == "skip" then "ok"
@@ -46,9 +60,8 @@ def handle (toks : List String) (impl : Option String) : Option (String × Strin
         else "bad:invalid_option_not_reported_as_exception"
       | ["fault.preset", _arch, _state] =>
         if isExc a then "ok" else "bad:save_to_a_failed_stream_not_reported"
-      | ["fault.midsave", sc] =>
+      | ["fault.midsave", _sc] =>
         if isExc a then "ok"
-        else if a == "terminate" ∧ sc.startsWith "csv_ragged" then "known:csv-write-dtor-throws"
         else "bad:mid-save_error_not_reported_as_exception"
       | _ => "nospec"
   match toks with
